@@ -316,8 +316,10 @@ def _run_impl(b0, x0, b1, x1):
     from iodata.overlap import compute_overlap
 
     try:
-        return compute_overlap(_mk_basis(b0), np.array(x0, dtype=float), None if b1 is None else _mk_basis(b1),
-                               None if x1 is None else np.array(x1, dtype=float))
+        mb0 = _mk_basis(b0)
+        # the same basis OBJECT on both sides (with its own geometry each) when the two descriptions coincide
+        mb1 = None if b1 is None else (mb0 if (b1 is b0 or b1 == b0) else _mk_basis(b1))
+        return compute_overlap(mb0, np.array(x0, dtype=float), mb1, None if x1 is None else np.array(x1, dtype=float))
     except Exception as exc:  # noqa: BLE001
         return _exc_class(exc)
 
@@ -586,6 +588,10 @@ def _search_case(rng, h2, max_cost, lmax):
             x1 = _rand_coords(rng, nc1)
             if rng.random() < 0.3:
                 x1[0] = list(x0[0])
+            if rng.random() < 0.25:
+                # one basis object placed at two different geometries
+                b1 = b0
+                x1 = _rand_coords(rng, nc0)
         if not _borderline(b0, x0, b1 or b0, x1 or x0):
             break
     shift = [rng.choice([0.0, 1.0, -2.5, 0.3, 17.0]) * rng.choice([1, -1]) for _ in range(3)]
